@@ -325,9 +325,12 @@ class Parser(RstParser):
 
         # replace raw nodes if raw is not allowed
         if not getattr(document.settings, "raw_enabled", True):
-            for node in document.traverse(nodes.raw):
-                warning = document.reporter.warning("Raw content disabled.")
-                node.parent.replace(node, warning)
+            # (also in footnotes that a directive discarded together with its content:
+            # these are still registered, and re-attached when footnotes are collected)
+            for root in (document, *document.footnotes, *document.autofootnotes):
+                for node in list(root.findall(nodes.raw)):
+                    warning = document.reporter.warning("Raw content disabled.")
+                    node.parent.replace(node, warning)
 
         # like the docutils rST parser, restore the "default" default role
         # (which may have been changed by a `default-role` directive)
